@@ -91,6 +91,10 @@ class Module:
         # Set to `None` initially to indicate that it hasn't been set yet.
         self._pre_flattening_io: Optional[Dict[str, "Connectable"]] = None
 
+        # The error with which a prior elaboration of this module failed, if any.
+        # Modules that have failed elaboration may be partially rewritten, and cannot be elaborated again.
+        self._elaboration_failure: Optional[BaseException] = None
+
         # The source `GeneratorCall`, for generated Modules.
         self._generated_by: Optional["GeneratorCall"] = None
 
